@@ -411,6 +411,53 @@ def reflow_root_is_first_pass_root(prog, rep, R):
               where="%s:%d" % (where.file, where.line), instance={"cases": len(CASES), "climb_in": short(where.npath), "deviations": bad[:4]})
 
 
+# adapters that end a traversal before the iterator is exhausted, or leave out elements by position
+TRAVERSAL_CUTTERS = ("map_while", "take_while", "take", "skip", "skip_while", "step_by", "scan", "nth", "last", "find", "find_map", "position", "any", "all", "try_for_each", "try_fold")
+
+
+def line_list_traversals_are_complete(prog, rep, R):
+    """C08.j — "there are never two consecutive blank lines .. every line's indentation is a whole number of indentation units", for the
+    tokens of every line: the wrapper reaches a logical line only if it was registered — as a top-level line or as a child of its parent
+    (get_line_children) — so every pass of the wrapper over the list of logical lines visits the whole list.  The iterator that drives
+    such a pass contains no adapter that ends the traversal early or picks elements by position (map_while, take_while, take, skip,
+    step_by, scan ..): a line that is never reached keeps the input's blank lines and gets no indentation at all."""
+    n = 0
+    bad = []
+    for b in sorted(prog.bodies.values(), key=lambda x: x.npath):
+        if not b.npath.startswith(OLF) and not b.npath.startswith("<" + OLF):
+            continue
+        if not nondebug(b.npath) or b.kind == "Closure":
+            continue
+        params = [i for i in range(1, b.arg_count + 1) if re.match(r"^&(\[|alloc::vec::Vec<)pasfmt_core::lang::LogicalLine\b", b.locals[i]["ty"].replace("'_ ", "").replace("mut ", ""))]
+        if not params:
+            continue
+        names = ["arg%d" % i for i in params]
+        for c in b.calls():
+            nm = (c.callee or "").split("::")[-1]
+            if nm not in ("next", "for_each", "collect", "fold", "count", "sum", "extend") or not c.args:
+                continue
+            src = canon(b, c.args[0])
+            flat, depth = "", 0
+            for ch in src:
+                if ch == "{":
+                    depth += 1
+                elif ch == "}":
+                    depth -= 1
+                elif depth == 0:
+                    flat += ch
+            if not any(re.search(r"\biter\(%s\)|\binto_iter\(%s\)" % (a, a), flat) for a in names):
+                continue
+            n += 1
+            cut = [a for a in re.findall(r"([A-Za-z_][A-Za-z_0-9]*)\(", flat) if a in TRAVERSAL_CUTTERS]
+            if cut:
+                bad.append((b, c, cut, flat))
+    rep.check(not bad, R, "line-list-traversals-are-complete",
+              "%s walks the list of logical lines through `%s` (%s): the lines behind the cut are never registered / wrapped — they keep the blank lines of the input and get no indentation"
+              % ((short(bad[0][0].npath), ", ".join(bad[0][2]), bad[0][3][:90]) if bad else ("", "", "")), where=bad[0][1].where() if bad else None,
+              instance={"traversals": n, "cut": len(bad)})
+    rep.floor(R, "traversals of the logical-line list in the wrapper", n, 3)
+
+
 def string_pass_visits_every_line(prog, rep, R):
     """C12.h — "afterwards the closing quotes and all interior lines are indented exactly like the opening quotes' line": a literal is
     re-indented only when its logical line is handed to StringFormatter::format_multiline_strings, so the pass over the lines hands
@@ -1453,6 +1500,7 @@ def check_c08(prog, rep, tier, cfg):
     line_comment_trailing_blanks(prog, rep, "C08.d")
     # a gap nobody decides keeps the input's blank count: more than one space between two tokens on a line
     gap_coverage(prog, rep, "C08.e")
+    line_list_traversals_are_complete(prog, rep, "C08.j")
     children_of_voided_lines_are_laid_out(prog, rep, "C08.f")
     consolidator_commits_atomically(prog, rep, "C08.i")
     # C08.g — every blank of the input is scanned as leading whitespace (and so replaced by the decided counters): the scanner's blank
@@ -2365,6 +2413,9 @@ def check_c11(prog, rep, tier, cfg):
     child_line_memo_key_is_complete(prog, rep, "C11.h")
     search_prunes_by_penalty_alone(prog, rep, "C11.j")
     line_spanning_kinds_measured(prog, rep, "C11.k")
+    # C11.l — what is compared with wrap_column is measured in one unit everywhere (shared with C03.g): a line measured in characters at one
+    # place and in bytes at another fits by one measure and sticks out by the other, and which one decides depends on the width
+    width_measures_agree(prog, rep, "C11.l")
     alternatives_are_not_narrowed(prog, rep, "C11.i")
     # C11.g — the widths the wrapper compares with wrap_column are the widths that are emitted: every pass that can replace a token's
     # text is registered before the wrapping pass (shared with C03.c)
